@@ -57,6 +57,8 @@ def cases(draw):
     inputs = []
     for _ in range(draw(st.integers(3, 8))):
         env = {n: draw(gen.splitter_values(wild=True)) for n in names}
+        if draw(st.integers(0, 7)) == 0:  # long ids: the whole key is hashed, not a prefix
+            env[names[0]] = draw(st.sampled_from(["u", "é", "ab"])) * draw(st.integers(100, 1500)) + str(draw(st.integers(0, 99)))
         if two:
             env["route"] = draw(st.sampled_from([0, 1]))
         inputs.append(M.enc_inputs(env))
